@@ -387,6 +387,36 @@ def check_function_body(chk, tus, tabs):
     chk.sample(dict(rule='R03.5', function_body=text))
 
 
+def check_function_sequence(chk):
+    """R03.2: every function starts with an empty operand stack, whatever the previous function in the same file left behind:
+    the text of each function in a multi-function file equals its text when it is written to a file of its own"""
+    from .. import render as R
+    from . import c06
+    import re as _re
+    tus = R.sequential_tus(chk)
+    it = c06.make(tus)
+    mk = lambda: R.sample_module(it, extra_void=True)
+    K = 7
+
+    def defs(files):
+        from .c09 import function_defs
+        out = {}
+        for name, text in files.items():
+            if name.endswith('.c'):
+                for fn_, texts in function_defs(text).items():
+                    out[fn_] = texts[0]
+        return out
+    alone = defs(R.render(it, mk, 1, list(range(K)), []))
+    chk.require(len(alone) == K, 'function sequence: %d functions rendered alone' % len(alone))
+    for order in ([6, 0, 1, 2, 3, 4, 5], [0, 6, 1, 6 - 4, 3, 4, 5], [5, 4, 3, 2, 1, 0, 6], [2, 6, 0, 1, 3, 6 - 1, 4]):
+        together = defs(R.render(it, mk, K, order, []))
+        for fn_, text in sorted(alone.items()):
+            chk.expect(together.get(fn_) == text, 'R03.2', 'fresh-stack[%s,order=%r]' % (fn_, order),
+                       'function %s is emitted differently when it follows other functions in the same file (order %r): %r vs alone %r - the operand '
+                       'stack / declarations of the previous function leak into it' % (fn_, order, together.get(fn_), text),
+                       'wasmCWriteFunctionImplementations:per-function-reset')
+
+
 def run(chk):
     chk.explanation = (
         'The control-flow emitters are partially evaluated on instruction scripts that instantiate each inductive step of the slot invariant '
@@ -406,6 +436,7 @@ def run(chk):
     check_parametric(chk, it, tabs)
     check_locals(chk, it, tabs)
     check_function_body(chk, tus, tabs)
+    check_function_sequence(chk)
     chk.floor('R03.1', 20)
     chk.floor('R03.2', 40)
     chk.floor('R03.3', 400)
